@@ -2,16 +2,17 @@
 # usage: tools/try_seed2.sh <seed name, e.g. C07-4> [tier] [extra check args]
 # Like try_seed.sh but never touches /repo: the change is applied to a scratch worktree of /repo's HEAD (removed afterwards) and the
 # check reads POX from there (POX_REPO); evidence goes to a scratch directory.  Several of these can run side by side.
+# MATRIX=1: only the seeded demo and the check (which stops at the first failing path: VERIF_STOP_EARLY, set by seed_matrix.sh).
 S="$1"; T="${2:-quick}"; shift; [ $# -gt 0 ] && shift
 P=${S%%-*}; D=/verif/seeded/$S
 W=/tmp/wt/try-$S
 git -C /repo worktree remove --force $W 2>/dev/null
 git -C /repo worktree add -q --detach $W HEAD || exit 9
 cd $W
-/venv/bin/python $D/demo.py >/dev/null 2>&1; echo "demo on clean tree: exit $?"
+if [ -z "$MATRIX" ]; then /venv/bin/python $D/demo.py >/dev/null 2>&1; echo "demo on clean tree: exit $?"; fi
 git apply $D/patch.diff || { git -C /repo worktree remove --force $W; exit 9; }
 /venv/bin/python $D/demo.py >/dev/null 2>&1; echo "demo on seeded tree: exit $?"
-/venv/bin/python -m pytest -q -p no:cacheprovider --timeout=900 --continue-on-collection-errors 2>&1 | tail -1
+if [ -z "$MATRIX" ]; then /venv/bin/python -m pytest -q -p no:cacheprovider --timeout=900 --continue-on-collection-errors 2>&1 | tail -1; fi
 cd /verif && POX_REPO=$W VERIF_EVIDENCE_DIR=/tmp/wt/ev-$S ./check "$P" --tier "$T" "$@" > /tmp/wt/try-$S.out 2>&1; RC=$?
 grep -E "^(VIOLATION|INCONCLUSIVE|ENGINE-ERROR|KNOWN)" /tmp/wt/try-$S.out | cut -c1-300 | head -4; grep ' tier=' /tmp/wt/try-$S.out
 echo "check exit $RC"
